@@ -178,12 +178,12 @@ def address_str (self_module : Str) (self_parent : List Str) (self_name : Str) (
 -- gapic/schema/metadata.py — Address.module_alias
 def address_module_alias (self_module : Str) (self_collisions : List Str) (self_package : List Str) (api_version : Str) : Str :=
   if ((strIn self_module self_collisions) || (strIn self_module (GapicModel.Pinned.reservedNames.map String.toList))) then
-  ((join (['_'] : Str) ([(join ([] : Str) ((self_package).flatMap fun i_ => (((((split i_ ['_'])).filter fun partial_name_ => (i_ != api_version))).map fun partial_name_ => (idxStr partial_name_ (0 : Int))))), self_module] : List Str)))
+  ((join (['_'] : Str) ([(join ([] : Str) ((self_package).flatMap fun i_ => (((((split i_ ['_'])).filter fun partial_name_ => ((i_ != api_version) && (truthy partial_name_)))).map fun partial_name_ => (idxStr partial_name_ (0 : Int))))), self_module] : List Str)))
   else
   (([] : Str))
 /-- true iff no index expression evaluated by `address_module_alias` on these arguments is out of range (Python raises IndexError otherwise) -/
 def address_module_alias_ok (self_module : Str) (self_collisions : List Str) (self_package : List Str) (api_version : Str) : Bool :=
-  (if ((strIn self_module self_collisions) || (strIn self_module (GapicModel.Pinned.reservedNames.map String.toList))) then ((self_package).all fun i_ => (((split i_ ['_'])).all fun partial_name_ => (!((i_ != api_version)) || (inRange (len partial_name_) (0 : Int))))) else true)
+  (if ((strIn self_module self_collisions) || (strIn self_module (GapicModel.Pinned.reservedNames.map String.toList))) then ((self_package).all fun i_ => (((split i_ ['_'])).all fun partial_name_ => (!(((i_ != api_version) && (truthy partial_name_))) || (inRange (len partial_name_) (0 : Int))))) else true)
 
 -- gapic/schema/metadata.py — Address.proto
 def address_proto (self_package : List Str) (self_parent : List Str) (self_name : Str) : Str :=
